@@ -70,6 +70,17 @@ def cases(ctx):
                 yield {"kind": "request", "type": tp, "number": rng.choice([1, 2, 3]), "rotations_local": list(rng.choice(triples)),
                        "rotations_remote": list(rng.choice(triples)) if tp == "M" else None, "max_time": rng.choice([0, 5]),
                        "time_unit": rng.choice(["MICRO_SECONDS", "SECONDS"]), "socket": rng.choice([0, 2]), "remote": "bob"}
+    # several create calls in ONE subroutine whose parameters are permutations of each other
+    pool = [{"basis_local": "X"}, {"basis_remote": "X"}, {"random_basis_local": "XZ"}, {"random_basis_remote": "XZ"},
+            {"rotations_local": [1, 8, 16]}, {"rotations_remote": [1, 8, 16]}, {"rotations_local": [16, 8, 1]},
+            {"basis_local": "Y", "basis_remote": "Z"}, {"basis_local": "Z", "basis_remote": "Y"}, {"max_time": 5, "time_unit": "SECONDS"},
+            {"max_time": 2, "time_unit": "MILLI_SECONDS"}, {}]
+    for _ in range(ctx.n(150, 6000) * ctx.nshards):
+        if mine():
+            k_req = rng.choice([2, 2, 3])
+            number = rng.choice([1, 2])
+            yield {"kind": "requests", "type": "M", "number": number, "socket": 0, "remote": "bob",
+                   "params": [dict(rng.choice(pool)) for _ in range(k_req)]}
     # ---- result side --------------------------------------------------------------------------------------
     for role in ("create", "recv"):
         for api in ("keep", "keep_with_info", "measure", "rsp"):
@@ -82,7 +93,64 @@ def cases(ctx):
                                "remote": rng.choice(["bob", "charlie"]), "socket": rng.choice([0, 1])}
 
 
+def _requests(ctx, case):
+    """Several create_measure calls in one subroutine: the i-th request that reaches the stack carries the i-th call's parameters."""
+    from netqasm import qlink_compat as ql
+    from netqasm.sdk.build_epr import EprMeasBasis
+    from netqasm.sdk.epr_socket import EPRSocket
+    es = EPRSocket(case["remote"], epr_socket_id=case["socket"], remote_epr_socket_id=case["socket"])
+    plan = [PlannedRequest("create", "M", case["number"], remote=NODE_IDS[case["remote"]], socket=case["socket"]) for _ in case["params"]]
+    link = LinkModel(plan, partners=False)
+    pipe = Pipe(epr_sockets=[es], link=link, max_qubits=5)
+    try:
+        with pipe.conn as conn:
+            for prm in case["params"]:
+                kw = {}
+                for k2, v in prm.items():
+                    if k2 == "time_unit":
+                        kw[k2] = ql.TimeUnit[v]
+                    elif k2.startswith("random_basis"):
+                        kw[k2] = ql.RandomBasis[v]
+                    elif k2.startswith("basis"):
+                        kw[k2] = EprMeasBasis[v]
+                    elif k2.startswith("rotations"):
+                        kw[k2] = tuple(v)
+                    else:
+                        kw[k2] = v
+                es.create_measure(case["number"], **kw)
+            conn.flush()
+    except (hc.ControllerFault, hc.Deadlock, hc.StepLimit) as e:
+        ctx.fail(case, f"{len(case['params'])} create_measure calls in one subroutine: controller run failed: {e}")
+        return ctx.case(case, True)
+    puts = pipe.stack.puts
+    if len(puts) != len(case["params"]):
+        ctx.fail(case, f"{len(case['params'])} create calls but {len(puts)} requests reached the network stack")
+        return ctx.case(case, True)
+
+    def plain(v):
+        return v.value if hasattr(v, "value") and not isinstance(v, int) else v
+    for i, (got, prm) in enumerate(zip(puts, case["params"])):
+        rl = tuple(prm.get("rotations_local") or (BASIS_ROT[prm["basis_local"]] if prm.get("basis_local") else (0, 0, 0)))
+        rr = tuple(prm.get("rotations_remote") or (BASIS_ROT[prm["basis_remote"]] if prm.get("basis_remote") else (0, 0, 0)))
+        want = {"number": case["number"], "type": 1, "max_time": prm.get("max_time", 0),
+                "random_basis_local": {None: 0, "XZ": 1}[prm.get("random_basis_local")],
+                "random_basis_remote": {None: 0, "XZ": 1}[prm.get("random_basis_remote")],
+                "rotation_X_local1": rl[0], "rotation_Y_local": rl[1], "rotation_X_local2": rl[2],
+                "rotation_X_remote1": rr[0], "rotation_Y_remote": rr[1], "rotation_X_remote2": rr[2]}
+        if prm.get("max_time"):
+            want["time_unit"] = {"MICRO_SECONDS": 0, "MILLI_SECONDS": 1, "SECONDS": 2}[prm.get("time_unit", "MICRO_SECONDS")]
+        for f, w in want.items():
+            ctx.count("request_fields_compared")
+            if plain(getattr(got, f)) != w:
+                ctx.fail(case, f"request {i} of {len(puts)} in one subroutine ({prm}): field {f} reaches the network stack as "
+                               f"{getattr(got, f)!r}, the application passed {w}")
+                return ctx.case(case, True)
+    ctx.case(case, True)
+
+
 def run_case(ctx, case):
+    if case["kind"] == "requests":
+        return _requests(ctx, case)
     if case["kind"] == "request":
         _request(ctx, case)
     else:
